@@ -121,7 +121,14 @@ claim("C05", "TS-SCCP dispatch totality of CallAll/Concatenate over all represen
       "element to the function; (R05c) a function that builds a sequence from another operand's backing store also reads that operand's offset. "
       "Which value is returned for a key, the ?: fallback classification and shift arithmetic are value-level and not decided.", NOTE, "DESIGN.md §3 C05")
 
-for pid in ["C02","C07"]:
+claim("C02", "construction-discipline checks over go/ssa (raw re-slices of holey stores, uncanonicalised tuple allocation), table agreement of the sugar-shape switches, TS-SCCP Equal symmetry, provenance of the positional row digest",
+      "Extensional equality rests on 'one denotation, one representation'; the check decides the construction discipline that maintains it: (R02a) no "
+      "String/Array is built around a raw re-slice of another value's store outside a trimming constructor; (R02b) a tuple whose name set changed is "
+      "returned through a canonicaliser (GenericTuple.With/Without are not: known findings); (R02c) Equal is symmetric for all 153 type pairs; (R02d) "
+      "the three shape-specialising switches name all four sugar shapes; (R02e) the layout-sensitive row digest is only taken of canonicalRelation(). "
+      "Extensionality itself and Equal within one type are not decided.", NOTE, "DESIGN.md §3 C02")
+
+for pid in ["C07"]:
     na(pid, "check under construction in this session (see DESIGN.md §3); not claimed until its rules are registered")
 na("C14", "agreement of a hand-written array matcher with strings/bytes over all sequences is a relation between runtime values computed by "
           "loops with data-dependent indices; no sound structural clause with teeth exists (DESIGN.md §3 C14)")
